@@ -545,7 +545,7 @@ def ft2(ctx):
         ctx.missing('successor', 'no FileTracker fn(&self, &FileNumber) -> Option<FileNumber> found')
 
 
-@rule('FH2', ['C01', 'C06'], floor=1, template='provenance')
+@rule('FH2', ['C01', 'C06', 'C18'], floor=1, template='provenance')
 def fh2(ctx):
     """The file a new record is attributed to is the writer's current file as read BEFORE the record is written
     (a clone of the `&FileNumber` accessor result): never a later file (the successor in the tracker, or the
@@ -625,3 +625,103 @@ def rp5(ctx):
                       'replaying a position record can skip the re-alignment of the queue (e.g. when the queue is already known): a stale queue left by a lost DeleteQueue / Truncate entry would survive and make later entries fail')
     if n == 0:
         ctx.missing('realign', 'no re-alignment call in the RecordPosition replay arm')
+
+
+@rule('MQ1', ['C01', 'C04', 'C18'], floor=2, template='provenance')
+def mq1(ctx):
+    """A queue enters the queue map FRESH: the value inserted is built on the spot by `MemQueue::default()` (a created
+    queue starts at position 0, which is what its WAL entry says) or `MemQueue::with_next_position(p)` (replay of a
+    recorded position) -- directly, through a local closure / helper that does nothing else, or through the entry
+    API. A recycled or otherwise pre-existing MemQueue carries a start position, file handles or records of another
+    incarnation: live state and replayed state diverge, and positions are handed out twice."""
+    MQ = 'mem::queue::MemQueue'
+    def is_ctor_call(cs):
+        return cs.path.endswith('MemQueue::with_next_position') or re.search(r'<mem::queue::MemQueue as std::default::Default>::default$', cs.name) is not None
+    def fresh_body(cb, depth):
+        """every value cb returns is a MemQueue built on the spot"""
+        ex = cb.exits()
+        if not ex or depth > 2:
+            return False
+        for e in ex:
+            if e['kind'] == 'forward' and e.get('call') is not None and (is_ctor_call(e['call']) or (e['call'].node in ctx.f.bodies and fresh_body(ctx.f.bodies[e['call'].node], depth + 1))):
+                continue
+            if e['kind'] == 'value' and e.get('adt') == MQ:
+                continue
+            return False
+        return True
+    def fresh_local(b, al):
+        org = b.trace_local(al) if al is not None else []
+        if not org:
+            return False
+        for o in org:
+            if o[0] == 'call' and (is_ctor_call(o[1]) or (o[1].node in ctx.f.bodies and fresh_body(ctx.f.bodies[o[1].node], 0))):
+                continue
+            if o[0] == 'rv' and o[2]['k'] == 'agg' and strip_crate(o[2].get('adt') or '') == MQ:
+                continue
+            return False
+        return True
+    def fresh_fn_value(b, cs):
+        """the function value handed to or_insert_with at call cs builds a fresh queue"""
+        for (p_, fj) in b.fn_values:
+            if b.pstart[cs.block] <= p_ <= cs.point:
+                nm = strip_crate(fj.get('name') or fj.get('path') or '')
+                if nm.endswith('MemQueue::with_next_position') or 'MemQueue as std::default::Default>::default' in nm:
+                    return True
+                node = fj.get('node')
+                if node in ctx.f.bodies and fresh_body(ctx.f.bodies[node], 0):
+                    return True
+        return False
+    n = 0
+    for b in ctx.f.bodies.values():
+        if b.generic_dup() or b.is_test:
+            continue
+        kk = 0
+        for cs in b.calls:
+            nm = cs.name
+            if 'mem::queue::MemQueue' not in nm:
+                continue
+            ok = None
+            if re.match(r'^std::collections::(HashMap|BTreeMap)::<std::string::String, mem::queue::MemQueue.*>::insert$', nm):
+                ok = fresh_local(b, cs.arg_local(2) if len(cs.args) > 2 else None)
+            elif re.search(r'(hash_map|btree_map)::VacantEntry::<.*>::insert(_entry)?$', nm) or re.search(r'(hash_map|btree_map)::Entry::<.*>::or_insert$', nm):
+                ok = fresh_local(b, cs.arg_local(1) if len(cs.args) > 1 else None)
+            elif re.search(r'(hash_map|btree_map)::Entry::<.*>::or_default$', nm):
+                ok = True
+            elif re.search(r'(hash_map|btree_map)::Entry::<.*>::or_insert_with(_key)?(::<.*>)?$', nm):
+                ok = fresh_fn_value(b, cs)
+            if ok is None:
+                continue
+            n += 1
+            kk += 1
+            ctx.check(ok, '%s:insert#%d' % (b.path, kk), where(b, cs.point), 'the queue inserted is built on the spot (default / with_next_position)',
+                      'a MemQueue that was not built on the spot is inserted into the queue map (recycled / moved from elsewhere): it can carry the start position, handles or records of another incarnation')
+    if n == 0:
+        ctx.missing('inserts', 'no insertion into the queue map found')
+
+
+@rule('RP6', ['C01', 'C18', 'C02'], floor=3, template='no-reach')
+def rp6(ctx):
+    """Replay fails the open only for an AppendRecords entry that cannot be applied. A Truncate, RecordPosition or
+    DeleteQueue entry whose queue replay does not know is NORMAL -- the files that created the queue were reclaimed
+    precisely because nothing of it was retained -- and is applied as far as it can be; turning it into an error makes
+    every other queue unreadable after an ordinary delete + GC."""
+    from rules_open import replay_sites
+    from rules_log import replay_arms
+    rs = replay_sites(ctx)
+    if not rs:
+        ctx.missing('replay', 'no replay loop')
+        return
+    b, cs0 = rs[0]
+    arms = replay_arms(ctx, b, cs0)
+    n = 0
+    for kind in ('Truncate', 'RecordPosition', 'DeleteQueue'):
+        if kind not in arms:
+            continue
+        n += 1
+        (edge, region) = arms[kind]
+        r_ = b.reach([edge[1]], avoid=[cs0.point])
+        bad = [e for e in b.exits() if e['kind'] in ('err', 'err_prop') and e['point'] in r_]
+        ctx.check(not bad, 'arm:%s:cannot-fail-open' % kind, where(b, edge[1]), 'the %s arm of replay always goes back to the reader' % kind,
+                  'replaying a %s entry can make open fail (%s): after an ordinary delete / truncate + GC the entry refers to a queue replay no longer knows, and every other queue becomes unreadable' % (kind, b.loc(bad[0]['point']) if bad else '-'))
+    if n == 0:
+        ctx.missing('arms', 'no Truncate / RecordPosition / DeleteQueue replay arm found')
